@@ -19,8 +19,10 @@ import (
 	"context"
 	"fmt"
 	"runtime/debug"
+	"sync"
 	"sync/atomic"
 	"testing"
+	"time"
 
 	"github.com/cockroachdb/pebble"
 	"github.com/cockroachdb/pebble/internal/base"
@@ -65,6 +67,7 @@ func valueOf(p Pt) string {
 var fileNumCounter atomic.Uint64
 
 type builtLSM struct {
+	stack   *pebble.VerifC33Stack
 	levels  []pebble.VerifC33Level
 	readers []*sstable.Reader
 	mems    []*pebble.VerifC33Mem
@@ -217,6 +220,7 @@ func buildLSM(l LSM, bloomOn bool, ch *cache.Handle) (*builtLSM, error) {
 		}
 		b.levels = append(b.levels, vl)
 	}
+	b.stack = pebble.VerifC33NewStack(comparer, b.levels)
 	return b, nil
 }
 
@@ -265,8 +269,8 @@ func fmtPt(p *Pt) string {
 
 // runSeq executes ops on a fresh iterator and compares each result with exp. It returns the first
 // disagreement (nil if none). Panics are reported as class "panic".
-func runSeq(b *builtLSM, cs *Case, ops []Op, exp []*Pt, verbose bool) (fail *failure) {
-	it := pebble.VerifC33NewMergingIter(comparer, b.levels, bnd(cs.Lower), bnd(cs.Upper), snapSeq(cs.Snap))
+func runSeq(b *builtLSM, reuse *pebble.VerifC33Iter, cs *Case, ops []Op, exp []*Pt, verbose bool) (fail *failure) {
+	it := b.stack.NewIter(reuse, bnd(cs.Lower), bnd(cs.Upper), snapSeq(cs.Snap))
 	stepNo := 0
 	defer func() {
 		if r := recover(); r != nil {
@@ -345,6 +349,84 @@ func runSeq(b *builtLSM, cs *Case, ops []Op, exp []*Pt, verbose bool) (fail *fai
 }
 
 // ---------------------------------------------------------------------------------------------
+// Hang detection: mergingIter's tombstone-driven re-seeks rely on a progress argument; a broken one
+// shows up as an endless loop, not as a wrong answer. Every worker publishes the sequence it is
+// executing; a watchdog reports a sequence that has been running for more than hangAfter.
+
+const hangAfter = 20 * time.Second
+
+type worker struct {
+	bc *cache.Cache
+	// tick is incremented before every executed sequence; busy is set while one is running.
+	tick atomic.Uint64
+	busy atomic.Bool
+	cur  atomic.Pointer[running]
+}
+
+type running struct {
+	cs  *Case
+	ops []Op
+}
+
+type workerPool struct {
+	mu   sync.Mutex
+	all  []*worker
+	free []*worker
+}
+
+func (p *workerPool) get() *worker {
+	p.mu.Lock()
+	defer p.mu.Unlock()
+	if n := len(p.free); n > 0 {
+		w := p.free[n-1]
+		p.free = p.free[:n-1]
+		return w
+	}
+	w := &worker{bc: cache.NewWithShards(4<<20, 1)}
+	p.all = append(p.all, w)
+	return w
+}
+
+func (p *workerPool) put(w *worker) {
+	p.mu.Lock()
+	p.free = append(p.free, w)
+	p.mu.Unlock()
+}
+
+// watch polls the workers; on a hang it records a violation and ends the process (the stuck
+// goroutine cannot be unwound).
+func (p *workerPool) watch(c *vlib.Ctx) {
+	type obs struct {
+		tick  uint64
+		since time.Time
+	}
+	seen := map[*worker]obs{}
+	for {
+		time.Sleep(time.Second)
+		p.mu.Lock()
+		ws := append([]*worker(nil), p.all...)
+		p.mu.Unlock()
+		now := time.Now()
+		for _, w := range ws {
+			t := w.tick.Load()
+			o, ok := seen[w]
+			if !ok || o.tick != t || !w.busy.Load() {
+				seen[w] = obs{t, now}
+				continue
+			}
+			if now.Sub(o.since) > hangAfter {
+				r := w.cur.Load()
+				rc := *r.cs
+				rc.Ops = append([]Op(nil), r.ops...)
+				c.Violation("hang", rc.String()+": the call sequence did not return within "+hangAfter.String()+" (endless loop)", rc)
+				c.Incomplete("stopped at the first hang: " + rc.String())
+				c.WriteAndExit()
+			}
+		}
+	}
+}
+
+// ---------------------------------------------------------------------------------------------
 // Exploring every permitted call sequence of one (layout, bounds, snapshot).
 
 type tripleStats struct {
@@ -357,12 +439,14 @@ type tripleStats struct {
 // explore runs every contract-permitted sequence of exactly `depth` calls (shorter sequences are
 // their prefixes and are checked on the way). If prefixOnly, only sequences that contain a
 // SeekPrefixGE are executed (used for the second, bloom-less build of the same layout).
-func explore(c *vlib.Ctx, b *builtLSM, cs Case, depth int, tsun, prefixOnly bool, ts *tripleStats) {
+func explore(c *vlib.Ctx, w *worker, b *builtLSM, cs Case, depth int, tsun, prefixOnly bool, ts *tripleStats) {
 	v := view(cs.LSM, cs.Lower, cs.Upper, cs.Snap)
 	ops := make([]Op, depth)
 	exp := make([]*Pt, depth)
 	hasPrefix := make([]bool, depth+1)
 	vh := vlib.Hash(cs.LSM.String(), cs.Lower, cs.Upper, cs.Snap)
+	reuse := &pebble.VerifC33Iter{}
+	w.cur.Store(&running{cs: &cs, ops: ops})
 	var rec func(d int, st mstate)
 	rec = func(d int, st mstate) {
 		for _, op := range legalOps(v, st, cs.Lower, cs.Upper, tsun) {
@@ -388,9 +472,13 @@ func explore(c *vlib.Ctx, b *builtLSM, cs Case, depth int, tsun, prefixOnly bool
 					ts.outcomes[ops[i].K+"->entry"]++
 				}
 			}
-			if f := runSeq(b, &cs, ops, exp, false); f != nil {
-				// re-execute before reporting
-				if f2 := runSeq(b, &cs, ops, exp, false); f2 == nil || f2.class != f.class {
+			w.tick.Add(1)
+			w.busy.Store(true)
+			f := runSeq(b, reuse, &cs, ops, exp, false)
+			w.busy.Store(false)
+			if f != nil {
+				// re-execute (on a newly allocated iterator) before reporting
+				if f2 := runSeq(b, nil, &cs, ops, exp, false); f2 == nil || f2.class != f.class {
 					c.Incomplete("violation did not reproduce: " + f.desc)
 					continue
 				}
@@ -431,33 +519,46 @@ type plan struct {
 }
 
 func plans(thorough bool) []plan {
-	ab := allBounds()
+	b15 := allBounds()
+	b5 := []bound{{"", ""}, {"b", ""}, {"", "c"}, {"b", "c"}, {"a", "d"}}
+	fam := func(name string, levels, maxTotal, maxTombs, minTombs int, mem bool) family {
+		return family{name: name, levels: levels, maxVers: 2, maxPts: 9, maxTombs: maxTombs, minTombs: minTombs,
+			maxDup: 1, maxFiles: 2 * levels, maxTotal: maxTotal, mem: mem}
+	}
 	if !thorough {
 		return []plan{
-			{fam: family{name: "1-level", levels: 1, maxVers: 2, maxPts: 4, maxTombs: 2, maxDup: 1, maxFiles: 2, mem: true}, depth: 3, bounds: ab, tsun: true, nobloo: true},
-			{fam: family{name: "2-level", levels: 2, maxVers: 2, maxPts: 3, maxTombs: 1, maxDup: 1, maxFiles: 3, mem: true}, depth: 3, bounds: ab, tsun: true, nobloo: true},
+			{fam: fam("1-level/<=3 entries", 1, 3, 2, 0, true), depth: 3, bounds: b15, tsun: true},
+			{fam: fam("2-level/<=3 entries/<=1 tombstone", 2, 3, 1, 0, true), depth: 3, bounds: b15, tsun: true},
+			{fam: fam("2-level/3 entries/2 tombstones", 2, 3, 2, 2, false), depth: 3, bounds: b5, tsun: true},
 		}
 	}
 	return []plan{
-		{fam: family{name: "1-level", levels: 1, maxVers: 2, maxPts: 6, maxTombs: 2, maxDup: 3, maxFiles: 2, mem: true}, depth: 4, bounds: ab, intra: true, tsun: true, nobloo: true},
-		{fam: family{name: "2-level", levels: 2, maxVers: 2, maxPts: 3, maxTombs: 1, maxDup: 1, maxFiles: 3, mem: true}, depth: 4, bounds: ab, intra: true, tsun: true, nobloo: true},
-		{fam: family{name: "3-level", levels: 3, maxVers: 2, maxPts: 4, maxTombs: 1, minTombs: 1, maxDup: 1, maxFiles: 4, mem: true}, depth: 3, bounds: ab, intra: true, tsun: true, nobloo: true},
+		{fam: fam("1-level/<=4 entries", 1, 4, 2, 0, true), depth: 3, bounds: b15, intra: true, tsun: true, nobloo: true},
+		{fam: fam("2-level/<=3 entries", 2, 3, 2, 0, true), depth: 3, bounds: b15, intra: true, tsun: true, nobloo: true},
+		{fam: fam("3-level/<=3 entries", 3, 3, 2, 0, true), depth: 3, bounds: b15, intra: true, tsun: true, nobloo: true},
+		{fam: fam("2-level/<=4 entries/<=1 tombstone", 2, 4, 1, 0, true), depth: 3, bounds: b15, tsun: true, nobloo: true},
+		{fam: fam("3-level/<=4 entries/1 tombstone", 3, 4, 1, 1, false), depth: 3, bounds: b15, tsun: true, nobloo: true},
+		{fam: fam("1-level/<=3 entries", 1, 3, 2, 0, true), depth: 4, bounds: b15, tsun: true, nobloo: true},
+		{fam: fam("2-level/<=3 entries/1 tombstone", 2, 3, 1, 1, true), depth: 4, bounds: b5, tsun: true, nobloo: true},
 	}
 }
 
 func TestCheck(t *testing.T) {
 	vlib.Main(t, "C33", func(c *vlib.Ctx) {
 		debug.SetGCPercent(800)
-		bc := cache.New(64 << 20)
-		defer bc.Unref()
+		// One small block cache per worker (a shared one makes the workers contend on the shard
+		// locks): work items borrow a worker from this pool.
+		pool := &workerPool{}
+		go pool.watch(c)
 		if c.ReplayPath() != "" {
 			var cs Case
 			if err := c.LoadReplay(&cs); err != nil {
 				t.Fatal(err)
 			}
-			ch := bc.NewHandle()
+			w := pool.get()
+			ch := w.bc.NewHandle()
 			defer ch.Close()
-			replay(c, cs, ch)
+			replay(c, w, cs, ch)
 			c.Eval(1)
 			return
 		}
@@ -467,7 +568,9 @@ func TestCheck(t *testing.T) {
 			n := len(lsms)
 			done, complete := c.Each(n, func(i int) {
 				l := lsms[i]
-				ch := bc.NewHandle()
+				w := pool.get()
+				defer pool.put(w)
+				ch := w.bc.NewHandle()
 				defer ch.Close()
 				b, err := buildLSM(l, true, ch)
 				if err != nil {
@@ -487,12 +590,12 @@ func TestCheck(t *testing.T) {
 				for _, snap := range snapshots(l, p.intra) {
 					for _, bd := range p.bounds {
 						cs := Case{LSM: l, Bloom: true, Lower: bd.lo, Upper: bd.hi, Snap: snap}
-						explore(c, b, cs, p.depth, p.tsun, false, ts)
+						explore(c, w, b, cs, p.depth, p.tsun, false, ts)
 						if b2 != nil {
 							cs.Bloom = false
 							st := ts.states
 							ts.states = nil
-							explore(c, b2, cs, p.depth, p.tsun, true, ts)
+							explore(c, w, b2, cs, p.depth, p.tsun, true, ts)
 							ts.states = st
 						}
 						c.Eval(1)
@@ -524,7 +627,7 @@ func TestCheck(t *testing.T) {
 	})
 }
 
-func replay(c *vlib.Ctx, cs Case, ch *cache.Handle) {
+func replay(c *vlib.Ctx, w *worker, cs Case, ch *cache.Handle) {
 	fmt.Printf("replay: %s\n", cs)
 	b, err := buildLSM(cs.LSM, cs.Bloom, ch)
 	if err != nil {
@@ -558,7 +661,11 @@ func replay(c *vlib.Ctx, cs Case, ch *cache.Handle) {
 		}
 		st, exp[i] = step(v, st, op)
 	}
-	f := runSeq(b, &cs, cs.Ops, exp, true)
+	w.cur.Store(&running{cs: &cs, ops: cs.Ops})
+	w.tick.Add(1)
+	w.busy.Store(true)
+	f := runSeq(b, nil, &cs, cs.Ops, exp, true)
+	w.busy.Store(false)
 	if f != nil {
 		fmt.Printf("replay: FAIL class=%s %s\n", f.class, f.desc)
 		c.Violation(f.class, cs.String()+": "+f.desc, cs)
